@@ -18,6 +18,7 @@ import (
 
 	aftpb "github.com/openconfig/gribi/v1/proto/gribi_aft"
 	spb "github.com/openconfig/gribi/v1/proto/service"
+	wpb "github.com/openconfig/ygot/proto/ywrapper"
 )
 
 // Op is one stamped call.
@@ -242,4 +243,140 @@ func Directed() []Scenario {
 		}
 	}
 	return out
+}
+
+// ---------------------------------------------------------------------------
+// Get while an installed entry is being replaced: the entry is installed before the first Get starts and is
+// never deleted (every REPLACE / re-ADD swaps its payload in one step), so every Get must return it.
+
+// GetEvent is the record of one Get-vs-replace scenario.
+type GetEvent struct {
+	Ev       string `json:"ev"`
+	N        int    `json:"n"`
+	Kind     string `json:"kind"`
+	Replaces int    `json:"replaces"`
+	Gets     int    `json:"gets"`
+	Missing  int    `json:"missing"` // Gets that did not return the entry
+	Dup      int    `json:"dup"`     // Gets that returned it more than once
+	Failed   string `json:"failed"`
+}
+
+func topOp(id uint64, kind string, typ spb.AFTOperation_Operation, variant uint64) *spb.AFTOperation {
+	op := &spb.AFTOperation{Id: id, NetworkInstance: "DEFAULT", Op: typ}
+	md := []byte{byte(variant)}
+	switch kind {
+	case "v4":
+		op.Entry = &spb.AFTOperation_Ipv4{Ipv4: &aftpb.Afts_Ipv4EntryKey{Prefix: "10.9.0.0/24", Ipv4Entry: &aftpb.Afts_Ipv4Entry{
+			NextHopGroup: &wpb.UintValue{Value: 1}, EntryMetadata: &wpb.BytesValue{Value: md}}}}
+	case "v6":
+		op.Entry = &spb.AFTOperation_Ipv6{Ipv6: &aftpb.Afts_Ipv6EntryKey{Prefix: "2001:db8:9::/48", Ipv6Entry: &aftpb.Afts_Ipv6Entry{
+			NextHopGroup: &wpb.UintValue{Value: 1}, EntryMetadata: &wpb.BytesValue{Value: md}}}}
+	case "mpls":
+		op.Entry = &spb.AFTOperation_Mpls{Mpls: &aftpb.Afts_LabelEntryKey{Label: &aftpb.Afts_LabelEntryKey_LabelUint64{LabelUint64: 1009},
+			LabelEntry: &aftpb.Afts_LabelEntry{NextHopGroup: &wpb.UintValue{Value: 1}, EntryMetadata: &wpb.BytesValue{Value: md}}}}
+	case "nhg":
+		op.Entry = &spb.AFTOperation_NextHopGroup{NextHopGroup: &aftpb.Afts_NextHopGroupKey{Id: 1, NextHopGroup: &aftpb.Afts_NextHopGroup{
+			Color: &wpb.UintValue{Value: variant}, NextHop: []*aftpb.Afts_NextHopGroup_NextHopKey{{Index: 1, NextHop: &aftpb.Afts_NextHopGroup_NextHop{Weight: &wpb.UintValue{Value: 1 + variant%3}}}}}}}
+	case "nh":
+		op.Entry = &spb.AFTOperation_NextHop{NextHop: &aftpb.Afts_NextHopKey{Index: 1, NextHop: &aftpb.Afts_NextHop{
+			IpAddress: &wpb.StringValue{Value: fmt.Sprintf("192.0.2.%d", 1+variant%200)}}}}
+	}
+	return op
+}
+
+func aftOf(kind string) spb.AFTType {
+	return map[string]spb.AFTType{"v4": spb.AFTType_IPV4, "v6": spb.AFTType_IPV6, "mpls": spb.AFTType_MPLS, "nhg": spb.AFTType_NEXTHOP_GROUP, "nh": spb.AFTType_NEXTHOP}[kind]
+}
+
+func hasEntry(kind string, rs []*spb.GetResponse) int {
+	n := 0
+	for _, r := range rs {
+		for _, e := range r.GetEntry() {
+			switch kind {
+			case "v4":
+				if e.GetIpv4().GetPrefix() == "10.9.0.0/24" {
+					n++
+				}
+			case "v6":
+				if e.GetIpv6().GetPrefix() == "2001:db8:9::/48" {
+					n++
+				}
+			case "mpls":
+				if e.GetMpls().GetLabelUint64() == 1009 {
+					n++
+				}
+			case "nhg":
+				if e.GetNextHopGroup().GetId() == 1 {
+					n++
+				}
+			case "nh":
+				if e.GetNextHop().GetIndex() == 1 {
+					n++
+				}
+			}
+		}
+	}
+	return n
+}
+
+// RunGet executes one Get-vs-replace scenario.
+func RunGet(n int, kind string, replaces int) GetEvent {
+	ev := GetEvent{Ev: "linget", N: n, Kind: kind, Replaces: replaces}
+	r := rib.New("DEFAULT")
+	var id uint64
+	for _, k := range []string{"nh", "nhg", kind} {
+		id++
+		if _, fails, err := r.AddEntry("DEFAULT", topOp(id, k, spb.AFTOperation_ADD, 0)); err != nil || len(fails) != 0 {
+			ev.Failed = fmt.Sprintf("initial install of %s failed: %v %d", k, err, len(fails))
+			return ev
+		}
+	}
+	holder, _ := r.NetworkInstanceRIB("DEFAULT")
+	done := make(chan struct{})
+	go func() {
+		defer close(done)
+		for i := 1; i <= replaces; i++ {
+			id++
+			typ := spb.AFTOperation_REPLACE
+			if i%2 == 0 {
+				typ = spb.AFTOperation_ADD
+			}
+			if _, fails, err := r.AddEntry("DEFAULT", topOp(id, kind, typ, uint64(i))); err != nil || len(fails) != 0 {
+				ev.Failed = fmt.Sprintf("replace %d failed: %v %d", i, err, len(fails))
+				return
+			}
+		}
+	}()
+	get := func() int {
+		msgCh := make(chan *spb.GetResponse)
+		stop := make(chan struct{})
+		var got []*spb.GetResponse
+		fin := make(chan error, 1)
+		go func() { fin <- holder.GetRIB(map[spb.AFTType]bool{aftOf(kind): true}, msgCh, stop) }()
+		for {
+			select {
+			case m := <-msgCh:
+				got = append(got, m)
+			case <-fin:
+				return hasEntry(kind, got)
+			}
+		}
+	}
+	deadline := time.Now().Add(20 * time.Second)
+	for running := true; running && time.Now().Before(deadline); {
+		select {
+		case <-done:
+			running = false
+		default:
+		}
+		ev.Gets++
+		switch c := get(); {
+		case c == 0:
+			ev.Missing++
+		case c > 1:
+			ev.Dup++
+		}
+	}
+	<-done
+	return ev
 }
